@@ -4,8 +4,13 @@
 (*     and its stable sort is sorted, a permutation, stable and idempotent.                    *)
 (* (2) Generator configurations enumerate the inputs of the S2C replay: lists for sort() and   *)
 (*     small tables with key choices for dictable.sort(), each with the result CmpModel gives. *)
-EXTENDS Order, Json, SequencesExt
-CONSTANTS MaxLen, Mode     \* Mode: "laws" | "lists" | "tuples" | "tables"
+(* (3) Mode "big": the same two things over numbers of large magnitude (OrderBig: ints beyond  *)
+(*     2^53 that share a double, floats at the edge of integer precision, huge / tiny floats,  *)
+(*     negatives, containers of them): CmpModelX (conversion to double explicit) satisfies the *)
+(*     axioms and the pinned entries, the exact-int fast path CmpModelFast does not; lists,    *)
+(*     tuples and tables over such numbers are enumerated for the S2C replay.                  *)
+EXTENDS OrderBig, Json, SequencesExt
+CONSTANTS MaxLen, Mode     \* Mode: "laws" | "lists" | "tuples" | "tables" | "big"
 
 VARIABLES x, y, done
 vars == <<x, y, done>>
@@ -25,19 +30,22 @@ Containers == {VTup(<<>>), VLst(<<>>), <<"m", <<>>>>, VTup(<<VBool(TRUE)>>), VTu
 U == Scalars \cup Containers
 
 \* ---- (1) laws ---------------------------------------------------------------------------------
-C(u, v) == CmpModel(u, v)
-Antisym   == Mode = "laws" => C(x, y) = -C(y, x)
-Reflexive == Mode = "laws" => C(x, x) = 0
-Transitive == Mode = "laws" => \A z \in U : (C(x, y) <= 0 /\ C(y, z) <= 0) => (C(x, z) <= 0 /\ ((C(x, y) < 0 \/ C(y, z) < 0) => C(x, z) < 0))
-PinnedOK  == Mode = "laws" => (Pinned(x, y) => C(x, y) = PinnedValue(x, y))
-NaNTop    == Mode = "laws" => ((IsNaN(x) /\ IsFinNum(y) /\ ~IsBool(y)) => C(x, y) = 1)
+\* (every invariant is guarded by `done`: TLC evaluates invariants of initial states in one thread, those of
+\*  successor states on all workers; each input is one initial state and its one successor)
+C(u, v) == IF Mode = "big" THEN CmpModelX(u, v) ELSE CmpModel(u, v)
+Antisym   == (Mode = "laws" /\ done) => C(x, y) = -C(y, x)
+Reflexive == (Mode = "laws" /\ done) => C(x, x) = 0
+Transitive == (Mode = "laws" /\ done) => \A z \in U : (C(x, y) <= 0 /\ C(y, z) <= 0) => (C(x, z) <= 0 /\ ((C(x, y) < 0 \/ C(y, z) < 0) => C(x, z) < 0))
+PinnedOK  == (Mode = "laws" /\ done) => (Pinned(x, y) => C(x, y) = PinnedValue(x, y))
+NaNTop    == (Mode = "laws" /\ done) => ((IsNaN(x) /\ IsFinNum(y) /\ ~IsBool(y)) => C(x, y) = 1)
+ModelXAgrees == (Mode = "laws" /\ done) => CmpModelX(x, y) = CmpModel(x, y)      \* OrderBig's mechanism is CmpModel on the old universe
 
 \* sorting laws for the lists of the generator universes
 SortU == {None, VInt(1), VInt(2), VFlt(1, 1), VFlt(5, 2), VNaN(1), VNaN(2), VStr("a"), VStr("b"), D1, D2, VInt(0)}
 TupU  == {VTup(<<a, b>>) : a \in {None, VInt(1), VFlt(1, 1), VNaN(1), VStr("a")}, b \in {VInt(1), VNaN(2), VStr("b")}}
 SeqsUpTo(S, n) == UNION {[1..k -> S] : k \in 0..n}
 Sorted(xs) == \A i \in 1..(Len(xs) - 1) : C(xs[i], xs[i + 1]) <= 0
-SortLaws == Mode \in {"lists", "tuples"} =>
+SortLaws == (Mode \in {"lists", "tuples"} /\ done) =>
               LET s == StableSort(C, x) IN Sorted(s) /\ IsPerm(x, s) /\ StableSort(C, s) = s
 
 \* ---- tables for dictable.sort: key columns a, b and a row id ----------------------------------
@@ -48,13 +56,61 @@ Bys == {<<"a">>, <<"b">>, <<"a", "b">>, <<"b", "a">>}
 KeyOf(row, by) == VTup([k \in 1..Len(by) |-> row[by[k]]])
 TableSort(rows, by) == LET RC(r, s) == C(KeyOf(r, by), KeyOf(s, by)) IN StableSort(RC, rows)
 
+\* ---- (3) numbers of large magnitude -------------------------------------------------------------
+\* sign * (2^n + k), 0 <= k < 2^n (k a TLC int); sign * (2^n - 1)
+XPlus(kind, sign, n, k) == VX(kind, sign, n, IF k = 0 THEN <<1>>
+                                             ELSE <<1>> \o [j \in 1..(n - Len(XBitsOf(k))) |-> 0] \o XStrip(XBitsOf(k)))
+XOnes(kind, sign, n) == VX(kind, sign, n - 1, [j \in 1..n |-> 1])
+B53   == XPlus("i", 1, 53, 0)         \* 2^53, 2^53 + 1 and 2^53 + 2 ... : 2^53 + 1 is not a double
+B53p1 == XPlus("i", 1, 53, 1)
+B53f  == XPlus("f", 1, 53, 0)
+BigInts == {XOnes("i", 1, 53), B53, B53p1, XPlus("i", 1, 53, 2), XPlus("i", 1, 53, 3), XPlus("i", 1, 54, 2), XPlus("i", 1, 31, 0),
+            XPlus("i", -1, 53, 0), XPlus("i", -1, 53, 1), XPlus("i", -1, 53, 2), XPlus("i", 1, 100, 0), XPlus("i", 1, 100, 1)}
+BigFlts == {XOnes("f", 1, 53), B53f, XPlus("f", 1, 53, 2), XPlus("f", 1, 53, 4), XPlus("f", -1, 53, 0), XPlus("f", -1, 53, 2),
+            XPlus("f", 1, 100, 0), XPlus("f", 1, 1000, 0), XPlus("f", 1, -1000, 0), XPlus("f", -1, -1000, 0), XPlus("f", 1, 31, 0),
+            XPlus("f", 1, -1074, 0), XPlus("f", -1, 1023, 0)}
+BigContainers == {VTup(<<B53>>), VTup(<<B53p1>>), VTup(<<B53f>>), VLst(<<B53p1>>), VLst(<<B53f>>), <<"m", <<<<"k", B53p1>>>>>>, <<"m", <<<<"k", B53f>>>>>>,
+                  <<"m", <<<<"k", B53>>>>>>, VTup(<<B53p1, VInt(1)>>), VTup(<<B53f, VInt(2)>>), VTup(<<B53, VInt(2)>>), VTup(<<VTup(<<B53p1>>), None>>)}
+UX == BigInts \cup BigFlts \cup BigContainers \cup
+      {None, VBool(TRUE), VInt(0), VInt(1), VInt(-1), VFlt(5, 2), VFlt(-1, 2), VNaN(1), VNaN(2), VInf(1), VInf(-1), VStr("a"), VTup(<<VInt(1)>>)}
+IsLaw == Mode = "big" /\ done /\ x.kind = "law"
+TransBad(F(_, _), a, b, c) == F(a, b) <= 0 /\ F(b, c) <= 0 /\ ~(F(a, c) <= 0 /\ ((F(a, b) < 0 \/ F(b, c) < 0) => F(a, c) < 0))
+BigAntisym    == IsLaw => C(x.u, x.v) = -C(x.v, x.u)
+BigReflexive  == IsLaw => C(x.u, x.u) = 0
+BigTransitive == IsLaw => \A z \in UX : ~TransBad(CmpModelX, x.u, x.v, z)
+BigPinnedOK   == IsLaw => (PinnedBig(x.u, x.v) => C(x.u, x.v) \in AllowedBig(x.u, x.v))
+BigSmallPinnedOK == IsLaw => (Pinned(x.u, x.v) => C(x.u, x.v) = PinnedValue(x.u, x.v))
+BigWellFormed == IsLaw => XAllWellFormed(x.u)
+\* the mechanism ties ints exactly when they round to one double, so CoarseTie is used and is not empty
+BigCoarseTieUsed == (IsLaw /\ x.u = B53 /\ x.v = B53p1) => (C(x.u, x.v) = 0 /\ ExactCmp(x.u, x.v) = -1)
+\* the exact-int fast path passes every pairwise clause and is rejected by transitivity alone
+BigFastPathRejected == (IsLaw /\ x.u = B53p1 /\ x.v = B53f) =>
+                          /\ \E z \in UX : TransBad(CmpModelFast, x.u, x.v, z)
+                          /\ \A a \in BigInts \cup BigFlts, b \in BigInts \cup BigFlts :
+                                CmpModelFast(a, b) = -CmpModelFast(b, a) /\ CmpModelFast(a, b) \in AllowedBig(a, b)
+SortBigU == {None, VInt(1), VFlt(5, 2), VNaN(1), VStr("a"), B53, B53p1, XPlus("i", 1, 53, 2), B53f, XPlus("f", 1, 53, 2),
+             XPlus("i", -1, 53, 1), XPlus("f", -1, 53, 0), XPlus("f", 1, 1000, 0), XPlus("f", 1, -1000, 0)}
+TupBigU  == {VTup(<<a, b>>) : a \in {None, B53, B53p1, B53f, VNaN(1)}, b \in {XPlus("i", 1, 53, 2), XPlus("f", 1, 53, 2), VInt(1)}}
+KeyBigU  == {None, VInt(1), B53, B53p1, B53f}
+BigRowsUpTo(n) == UNION {[1..k -> [a : KeyBigU, b : KeyBigU]] : k \in 0..n}
+BigInit == {[kind |-> "law", u |-> u, v |-> v] : u \in UX, v \in UX}
+           \cup {[kind |-> "list", xs |-> s] : s \in SeqsUpTo(SortBigU, MaxLen) \cup SeqsUpTo(TupBigU, MaxLen - 1)}
+           \cup {[kind |-> "table", rows |-> WithIds(r), by |-> b] : r \in BigRowsUpTo(MaxLen - 1), b \in Bys}
+BigSortLaws == (Mode = "big" /\ done /\ x.kind = "list") =>
+                 LET s == StableSort(C, x.xs) IN Sorted(s) /\ IsPerm(x.xs, s) /\ StableSort(C, s) = s
+BigTableLaws == (Mode = "big" /\ done /\ x.kind = "table") =>
+                 LET s == TableSort(x.rows, x.by) IN IsPerm(x.rows, s) /\ TableSort(s, x.by) = s
+
 Init == /\ done = FALSE
         /\ CASE Mode = "laws"   -> x \in U /\ y \in U
              [] Mode = "lists"  -> x \in SeqsUpTo(SortU, MaxLen) /\ y = 0
              [] Mode = "tuples" -> x \in SeqsUpTo(TupU, MaxLen) /\ y = 0
              [] Mode = "tables" -> x \in {WithIds(r) : r \in RowsUpTo(MaxLen)} /\ y \in Bys
+             [] Mode = "big"    -> x \in BigInit /\ y = 0
 Emit == CASE Mode \in {"lists", "tuples"} -> PrintT(ToJson([kind |-> "sort", xs |-> x, model |-> StableSort(C, x)]))
           [] Mode = "tables" -> PrintT(ToJson([kind |-> "dsort", rows |-> x, by |-> y, model |-> TableSort(x, y)]))
+          [] Mode = "big" /\ x.kind = "list"  -> PrintT(ToJson([kind |-> "sort", xs |-> x.xs, model |-> StableSort(C, x.xs)]))
+          [] Mode = "big" /\ x.kind = "table" -> PrintT(ToJson([kind |-> "dsort", rows |-> x.rows, by |-> x.by, model |-> TableSort(x.rows, x.by)]))
           [] OTHER -> TRUE
 Next    == done = FALSE /\ done' = TRUE /\ UNCHANGED <<x, y>>
 NextGen == Next /\ Emit
